@@ -6,7 +6,7 @@ import re
 from typing import Optional, List, Set, Tuple, Dict
 from ..model import Model, FuncInfo, own_nodes, norm_stmt, ancestors, parent, AnalysisError
 from ..cfg import CFG, Node
-from ..flow import (find_warn_flag, flag_typestate, bool_const_assign, def_use_closure, function_defs,
+from ..flow import (eval_flag_test, find_warn_flag, flag_typestate, bool_const_assign, def_use_closure, function_defs,
                     names_loaded, is_warn_call, VN, local_identity_functions, walk_paths, test_on_name,
                     stmt_defs, free_names_of_def)
 from ..report import RuleResult
@@ -76,7 +76,12 @@ def check_warn_or_converged(fi: FuncInfo, W: RuleResult, W2: RuleResult, P: Rule
     fn = fi.node
     found = find_warn_flag(fn, category)
     if found is None:
-        raise AnalysisError("%s: no `if <flag>` guarding a %s warning was found (anchor idiom vanished)" % (fi.fq, category))
+        from ..flow import has_warn_anywhere
+        if not has_warn_anywhere(fn, category):
+            W.bad(fi, fn, "the solver loop never issues a %s: a non-converged exit is silent" % category,
+                  what="%s has no %s" % (fi.qualname, category))
+            return None
+        raise AnalysisError("%s: a %s is issued but not under an `if <flag>` test the checker can interpret" % (fi.fq, category))
     flag, guard = found
     cfg = CFG(fn)
     states, explored = flag_typestate(cfg, flag, category)
@@ -215,15 +220,12 @@ def check_returned_is_checked(fi: FuncInfo, RC: RuleResult, flag: Optional[str])
     def follow(node: Node, lab, st):
         vn, fv = st
         if node.kind == "test" and isinstance(node.stmt, ast.If):
-            r = test_on_name(node.stmt.test)
-            if r:
-                val = None
-                if r[0] == res_name:
-                    val = True          # we follow the converged outcome of the termination test
-                elif flag is not None and r[0] == flag and fv is not None:
-                    val = fv
-                if val is not None and lab != (val == r[1]):
-                    return False
+            t = node.stmt.test
+            val = eval_flag_test(t, res_name, True)   # we follow the converged outcome of the termination test
+            if val is None and flag is not None and fv is not None:
+                val = eval_flag_test(t, flag, fv)
+            if val is not None and lab != val:
+                return False
         return True
 
     def on_return(node: Node, st):
